@@ -342,9 +342,13 @@ def gen_fit(r, count, flagged_share=0.25):
             flag = "multi_weights"
         gain = r.choice([0, 1, 2, 3, Fraction(1, 2), Fraction(3, 2)])
         bias = r.choice([0, 0, 1, -2, Fraction(1, 4)])
-        cases.append(dict(kind="fit", ff=ff, free=free, multi=multi, steps=steps, pattern=pattern, offsets=offsets,
-                          targets=targets, trng=trng, orng=orng, weights=weights, gain=gain, bias=bias,
-                          bypass=bypass, flag=flag))
+        c = dict(kind="fit", ff=ff, free=free, multi=multi, steps=steps, pattern=pattern, offsets=offsets,
+                 targets=targets, trng=trng, orng=orng, weights=weights, gain=gain, bias=bias,
+                 bypass=bypass, flag=flag)
+        fl = fit_flags(c)
+        if sum(1 for k in ("short_procs", "multi_weights", "chi_scalar_sub") if fl[k]) > 1:
+            c["weights"] = None          # keep known defect classes apart: at most one per case
+        cases.append(c)
     return cases
 
 
@@ -573,7 +577,13 @@ def leg_calib(ctx, cases):
                 rows.append((seq, o["reeval"][i], o["from_returned"][i]))
                 owner.append((c, o, i, "returned"))
             ctx.count("evaluations", len(seq))
-        if o["sim"]["o"] != "ok":
+        if o["sim"]["o"] != "ok" and c.get("single_param") and o["sim"]["cls"] == "IndexError":
+            ctx.violations.append(Violation(
+                clause="resimulation", case=jc, observed=o["sim"], expected="champions re-simulated",
+                what="a calibration with a single scalar parameter raises while re-simulating the champions "
+                     f"({o['sim']['cls']}: {o['sim']['msg'][:120]})",
+                sig=dict(clause="resimulation", cls="single_parameter_raises", exc=o["sim"]["cls"])))
+        elif o["sim"]["o"] != "ok":
             ctx.violations.append(Violation(
                 clause="resimulation", case=jc, observed=o["sim"],
                 expected="/simulated/<bucket> of the returned DataTree can be computed and reproduces the champion fitness",
